@@ -1,95 +1,92 @@
-(* C08 - consequences of the exact specification of from_alias on class trees:
-   unknown alias, shadowing between siblings and between a class and its
-   subclasses, "the class registered last wins" and when exactly that holds. *)
+(* C08 - from_alias on class trees (identity of a class = its registration
+   index): the exact answer, unknown alias, "the class registered last wins" in
+   ANY tree, siblings and subclass/base as corollaries, and the record of the
+   repaired defect (the loop before the repair on the cross-branch hierarchy). *)
 From Coq Require Import String.
 From Coq Require Import ZArith List Bool Lia.
 From Verif Require Import C08.Model C08.ProofsMachine.
 Import ListNotations.
 
-Lemma forest_order_app l1 l2 : forest_order (l1 ++ l2) = forest_order l1 ++ forest_order l2.
-Proof. unfold forest_order. now rewrite map_app, concat_app. Qed.
+Lemma thas_true a n : thas a n = true <-> In a (t_al n).
+Proof. unfold has_alias. apply mem_str_true. Qed.
 
-Lemma forest_order_in_rev m l : In m (forest_order (rev l)) <-> In m (forest_order l).
+Lemma thas_false a n : thas a n = false <-> ~ In a (t_al n).
+Proof. rewrite <- thas_true. destruct (thas a n); split; congruence. Qed.
+
+Lemma visit_order_closed' t :
+  forall n, In n (visit_order t) -> forall d, In d (t_subs n) -> In d (visit_order t).
+Proof. intros n Hn d Hd. eapply visit_order_closed; eauto. Qed.
+
+(** what is found carries the alias and belongs to the tree (no hypothesis) *)
+Lemma tree_from_alias_in t a c :
+  tree_from_alias t a = Some c ->
+  exists n, In n (visit_order t) /\ t_id n = c /\ In a (t_al n).
 Proof.
-  unfold forest_order. rewrite !in_concat. split; intros [x [Hx Hm]]; exists x; split; auto;
-    rewrite in_map_iff in *; destruct Hx as [y [Hy Hin]]; exists y; split; auto;
-    [apply in_rev in Hin|apply -> in_rev in Hin]; assumption.
+  unfold tree_from_alias.
+  destruct (tree_run (tree_fuel t) [t] [] None a) as [n| |] eqn:E; try discriminate.
+  intros H. inversion H; subst. apply run_sound in E as [E Ha].
+  exists n. repeat split; [now apply treach_in|now apply thas_true].
 Qed.
 
-Lemma spec_node c al ch a :
-  spec_from_alias (Node c al ch) a =
-  match find (thas a) (forest_order (rev ch)) with
-  | Some n => Some n
-  | None => if thas a (Node c al ch) then Some (Node c al ch) else None
-  end.
-Proof. unfold spec_from_alias. rewrite visit_order_node, find_app. reflexivity. Qed.
-
-(** what is found carries the alias and belongs to the tree *)
-Lemma spec_sound t a n :
-  spec_from_alias t a = Some n -> In n (visit_order t) /\ In a (t_al n).
+(** the exact answer: the class that carries the alias and was registered after
+    every other class of the tree that carries it *)
+Lemma tree_from_alias_spec_l t a :
+  NoDup (ids t) ->
+  forall c, tree_from_alias t a = Some c <->
+            exists n, In n (visit_order t) /\ t_id n = c /\ In a (t_al n) /\
+                      forall m, In m (visit_order t) -> In a (t_al m) -> m <> n ->
+                                (t_id m < t_id n)%Z.
 Proof.
-  unfold spec_from_alias. intros H. apply find_some in H as [H1 H2]. split; [assumption|].
-  unfold has_alias in H2. now apply mem_str_true in H2.
+  intros Hnd c.
+  pose proof (run_spec ctree t_id t_id t_subs t_al (visit_order t) (visit_order_closed' t)
+                       t a (visit_order_self t) (tree_id_inj t Hnd) (tree_id_inj t Hnd)
+                       (tree_fuel t) (le_n _)) as S.
+  unfold tree_from_alias, tree_run. split.
+  - destruct (run ctree t_id t_id t_subs t_al (tree_fuel t) [t] [] None a) as [n| |] eqn:E;
+      try discriminate.
+    intros H. inversion H; subst c. destruct (proj1 (S n) eq_refl) as [E1 [E2 E3]].
+    exists n. split; [now apply treach_in|]. split; [reflexivity|]. split; [now apply thas_true|].
+    intros m Hm Ham Hne. apply E3; [now apply in_treach|now apply thas_true|exact Hne].
+  - intros [n [Hn [Hid [Ha Hmax]]]].
+    assert (L : last_carrier ctree t_id t_subs t_al t a n).
+    { split; [now apply in_treach|]. split; [now apply thas_true|].
+      intros m Hm Ham Hne. apply Hmax; [now apply treach_in|now apply thas_true|exact Hne]. }
+    apply (proj2 (S n)) in L. rewrite L. now subst.
 Qed.
 
-(** nothing is found exactly when no class of the tree carries the alias *)
-Lemma spec_none t a :
-  spec_from_alias t a = None <-> (forall n, In n (visit_order t) -> ~ In a (t_al n)).
+(** ValueError exactly when no class of the tree carries the alias *)
+Lemma tree_unknown_alias_l t a :
+  NoDup (ids t) ->
+  (tree_from_alias t a = None <-> forall n, In n (visit_order t) -> ~ In a (t_al n)).
 Proof.
-  unfold spec_from_alias. rewrite find_none_iff. split; intros H n Hn.
-  - intro Hc. specialize (H n Hn). unfold has_alias in H.
-    apply mem_str_true in Hc. congruence.
-  - specialize (H n Hn). unfold has_alias. destruct (mem_str a (t_al n)) eqn:E; [|reflexivity].
-    apply mem_str_true in E. contradiction.
+  intros Hnd.
+  pose proof (run_not_found_iff ctree t_id t_id t_subs t_al (visit_order t) (visit_order_closed' t)
+                                t a (visit_order_self t) (tree_id_inj t Hnd)
+                                (tree_fuel t) (le_n _)) as S.
+  pose proof (tree_fuel_ok t a) as T. unfold tree_from_alias, trun, tree_run in *. split.
+  - destruct (run ctree t_id t_id t_subs t_al (tree_fuel t) [t] [] None a) as [n| |] eqn:E;
+      [discriminate| |congruence].
+    intros _ n Hn. apply thas_false. apply (proj1 S eq_refl). now apply in_treach.
+  - intros Hno. rewrite (proj2 S); [reflexivity|].
+    intros n Hn. apply thas_false. apply Hno. now apply treach_in.
 Qed.
 
-(** of two sibling subtrees that both contain the alias, the one registered
-    later answers; the earlier one is reached only if no later sibling matches *)
-Lemma later_sibling_wins_l c al pre y post a n :
-  spec_from_alias y a = Some n ->
-  (forall m, In m (forest_order post) -> ~ In a (t_al m)) ->
-  spec_from_alias (Node c al (pre ++ y :: post)) a = Some n.
+(** "the class registered last wins": in ANY class tree the answer has the
+    greatest registration index among the classes carrying the alias *)
+Lemma tree_last_registered_wins_l t a c :
+  NoDup (ids t) -> tree_from_alias t a = Some c ->
+  forall m, In m (visit_order t) -> In a (t_al m) -> (t_id m <= c)%Z.
 Proof.
-  intros Hy Hpost. rewrite spec_node, rev_app_distr. simpl rev. rewrite <- app_assoc.
-  rewrite forest_order_app, find_app.
-  assert (Hn : find (thas a) (forest_order (rev post)) = None).
-  { apply find_none_iff. intros m Hm. apply (proj1 (forest_order_in_rev _ _)) in Hm.
-    specialize (Hpost m Hm). unfold has_alias.
-    destruct (mem_str a (t_al m)) eqn:E; [|reflexivity].
-    apply mem_str_true in E. contradiction. }
-  rewrite Hn. simpl app. rewrite forest_order_cons, find_app.
-  unfold spec_from_alias in Hy. rewrite Hy. reflexivity.
-Qed.
-
-(** a class answers only if none of its (transitive) subclasses carries the alias *)
-Lemma subclass_shadows_base_l c al ch a n :
-  spec_from_alias (Node c al ch) a = Some n ->
-  (exists m, In m (forest_order ch) /\ In a (t_al m)) ->
-  In n (forest_order ch).
-Proof.
-  intros H [m [Hm Ha]]. rewrite spec_node in H.
-  destruct (find (thas a) (forest_order (rev ch))) as [n'|] eqn:E.
-  - inversion H; subst. apply find_some in E as [E _]. now apply (proj1 (forest_order_in_rev _ _)).
-  - exfalso. apply (proj1 (find_none_iff _ _)) with (x := m) in E.
-    + unfold has_alias in E. apply mem_str_true in Ha. congruence.
-    + now apply (proj2 (forest_order_in_rev _ _)).
+  intros Hnd H m Hm Ha. unfold tree_from_alias, tree_run in H.
+  destruct (run ctree t_id t_id t_subs t_al (tree_fuel t) [t] [] None a) as [n| |] eqn:E;
+    try discriminate.
+  inversion H; subst c.
+  apply (run_last_registered ctree t_id t_id t_subs t_al t a (tree_id_inj t Hnd) _ n E m);
+    [now apply in_treach|now apply thas_true].
 Qed.
 
 (* ------------------------------------------------------------------ *)
-(** * "The class registered last wins" *)
-
-Lemma rev_concat {A} (l : list (list A)) : rev (concat l) = concat (rev (map (@rev A) l)).
-Proof.
-  induction l as [|x l IH]; simpl; [reflexivity|].
-  rewrite rev_app_distr, IH, concat_app. simpl. now rewrite app_nil_r.
-Qed.
-
-Lemma visit_order_preorder : forall t, visit_order t = rev (preorder t).
-Proof.
-  induction t as [c al ch IH] using ctree_ind'. simpl.
-  rewrite rev_concat, map_map. f_equal. f_equal. f_equal.
-  induction IH as [|x l Hx _ IHl]; simpl; [reflexivity|]. now rewrite Hx, IHl.
-Qed.
+(** * Siblings, subclass and base *)
 
 Lemma increasing_cons x l :
   increasing (x :: l) = true -> increasing l = true /\ forall y, In y l -> (x < y)%Z.
@@ -100,49 +97,81 @@ Proof.
   destruct (IH y H2) as [_ H3]. specialize (H3 z Hz). lia.
 Qed.
 
-(* the first match in a list with decreasing identities has the largest identity *)
-Lemma find_first_is_max (p : ctree -> bool) : forall l n,
-    increasing (map t_id (rev l)) = true ->
-    find p l = Some n -> forall m, In m l -> p m = true -> (t_id m <= t_id n)%Z.
+Lemma increasing_app_r l1 l2 : increasing (l1 ++ l2) = true -> increasing l2 = true.
 Proof.
-  induction l as [|x l IH]; intros n Hinc Hf m Hm Hp; [destruct Hm|].
-  simpl in Hinc. rewrite map_app in Hinc. simpl in Hinc.
-  assert (Hinc' : increasing (map t_id (rev l)) = true /\
-                  forall y, In y (map t_id (rev l)) -> (y < t_id x)%Z).
-  { clear -Hinc. induction (map t_id (rev l)) as [|y q IHq]; [split; [reflexivity|intros ? []]|].
-    simpl app in Hinc. destruct (increasing_cons _ _ Hinc) as [H1 H2].
-    destruct (IHq H1) as [H3 H4]. split.
-    - destruct q; [reflexivity|]. simpl. simpl app in Hinc. simpl in Hinc.
-      apply andb_true_iff in Hinc as [Hlt _]. rewrite Hlt. exact H3.
-    - intros z [Hz|Hz]; [subst; apply H2; apply in_or_app; right; now left|now apply H4]. }
-  destruct Hinc' as [Hl Hlt]. simpl in Hf. destruct (p x) eqn:Epx.
-  - inversion Hf; subst n. destruct Hm as [Hm|Hm]; [subst; lia|].
-    assert (t_id m < t_id x)%Z; [|lia]. apply Hlt. apply in_map. now apply -> in_rev.
-  - destruct Hm as [Hm|Hm]; [subst; congruence|]. eapply IH; eauto.
+  induction l1 as [|x l1 IH]; [auto|]. intros H. simpl app in H.
+  apply increasing_cons in H as [H _]. auto.
 Qed.
 
-(** In a tree registered depth first (see Model.v) the class that answers is,
-    among the classes carrying the alias, the one registered last. *)
-Lemma last_registered_wins_l t a n :
-  registered_depth_first t = true ->
-  spec_from_alias t a = Some n ->
-  forall m, In m (visit_order t) -> In a (t_al m) -> (t_id m <= t_id n)%Z.
+(* every class of a tree built by Python is registered after its base *)
+Lemma consistent_after_base : forall t, registration_consistent t = true ->
+    forall c, In c (visit_order t) -> forall d, In d (t_subs c) -> (t_id c < t_id d)%Z.
 Proof.
-  unfold registered_depth_first, spec_from_alias. intros Hinc Hf m Hm Ha.
-  eapply find_first_is_max; eauto.
-  - now rewrite visit_order_preorder, rev_involutive.
-  - unfold has_alias. now apply mem_str_true.
+  induction t as [c0 al ch IH] using ctree_ind'. intros Hc c Hin d Hd.
+  simpl in Hc. apply andb_true_iff in Hc as [Hc Hrec]. apply andb_true_iff in Hc as [Hlt _].
+  rewrite forallb_forall in Hlt, Hrec.
+  apply in_visit_order_node in Hin as [Hin|Hin].
+  - subst c. simpl in *. apply Z.ltb_lt. now apply Hlt.
+  - apply in_forest_order in Hin as [k [Hk Hin]]. rewrite Forall_forall in IH.
+    eapply IH; eauto.
 Qed.
 
-(** Without that condition the claim is false: B, C(B's sibling, later) and D
-    (a subclass of B registered after C): C answers although D was registered last. *)
+(** two sibling classes: if the later registered one carries the alias, the
+    earlier one never answers - whatever is instantiated was registered no
+    earlier than the later sibling *)
+Lemma later_sibling_wins_l c al pre x mid y post a r :
+  let t := Node c al (pre ++ x :: mid ++ y :: post) in
+  NoDup (ids t) -> registration_consistent t = true ->
+  In a (t_al y) -> tree_from_alias t a = Some r ->
+  (t_id x < t_id y <= r)%Z.
+Proof.
+  intros t Hnd Hc Hay H. split.
+  - unfold t in Hc. simpl in Hc. apply andb_true_iff in Hc as [Hc _].
+    apply andb_true_iff in Hc as [_ Hinc]. rewrite map_app in Hinc.
+    apply increasing_app_r in Hinc. simpl map in Hinc.
+    apply increasing_cons in Hinc as [_ Hinc]. apply Hinc.
+    rewrite map_app. apply in_or_app. right. now left.
+  - apply (tree_last_registered_wins_l t a r Hnd H); [|exact Hay].
+    unfold t. apply in_visit_order_node. right. apply in_forest_order. exists y.
+    split; [|apply visit_order_self]. apply in_or_app. right. right. apply in_or_app. right. now left.
+Qed.
+
+(** a class and one of its (transitive) subclasses carry the alias: the base
+    never answers (a subclass is always registered after its base) *)
+Lemma subclass_shadows_base_l t a r base m :
+  NoDup (ids t) -> registration_consistent t = true ->
+  tree_from_alias t a = Some r ->
+  In base (visit_order t) -> In m (forest_order (t_subs base)) -> In a (t_al m) ->
+  (t_id base < r)%Z.
+Proof.
+  intros Hnd Hc H Hb Hm Ha.
+  apply in_forest_order in Hm as [d [Hd Hm]].
+  assert (Hafter : forall c k, TReach t c -> In k (t_subs c) -> (t_id c < t_id k)%Z).
+  { intros c k Hck Hk. eapply consistent_after_base; eauto. now apply treach_in. }
+  assert (Hrd : TReach t d) by (eapply Reach_step; [apply in_treach; exact Hb|exact Hd]).
+  assert (Hdm : TReach d m) by now apply in_treach.
+  assert (Hrm : In m (visit_order t)) by (apply treach_in; eapply Reach_trans; eauto).
+  pose proof (tree_last_registered_wins_l t a r Hnd H m Hrm Ha) as Hle.
+  pose proof (reach_registered_later ctree t_id t_subs t Hafter d Hrd m Hdm) as H1.
+  pose proof (Hafter base d (in_treach _ _ Hb) Hd) as H2. lia.
+Qed.
+
+(* ------------------------------------------------------------------ *)
+(** * The repaired defect *)
+
+(** R; B(R); C(R) aliases={"x"}; D(B) aliases={"x"} - identities = registration
+    order R=0, B=1, C=2, D=3.  The loop before the repair (Model.run_old, a stack
+    DFS that tests a class after the subtrees of its later registered siblings)
+    answered C although D was registered last; the repaired loop answers D. *)
 Definition late_subclass_tree : ctree :=
   Node 0 [] [Node 1 [] [Node 3 ["x"%string] []]; Node 2 ["x"%string] []].
 
-Lemma last_registered_refuted_l :
+Lemma old_loop_refuted_new_loop_repaired_l :
   exists t a c m,
     registration_consistent t = true /\ NoDup (ids t) /\
-    tree_from_alias t a = Some c /\ In m (visit_order t) /\ In a (t_al m) /\ (c < t_id m)%Z.
+    In m (visit_order t) /\ In a (t_al m) /\
+    tree_from_alias_old t a = Some c /\ (c < t_id m)%Z /\
+    tree_from_alias t a = Some (t_id m).
 Proof.
   exists late_subclass_tree, "x"%string, 2%Z, (Node 3 ["x"%string] []).
   repeat split; try reflexivity.
@@ -151,7 +180,9 @@ Proof.
   - vm_compute. tauto.
 Qed.
 
-(* hypotheses are satisfiable *)
-Example depth_first_example :
-  registered_depth_first (Node 0 [] [Node 1 ["a"%string] [Node 2 ["a"%string] []]; Node 3 ["b"%string] []]) = true.
-Proof. reflexivity. Qed.
+(* hypotheses are satisfiable: a tree that is NOT registered depth first *)
+Example cross_branch_example :
+  registration_consistent late_subclass_tree = true
+  /\ registered_depth_first late_subclass_tree = false
+  /\ tree_from_alias late_subclass_tree "x" = Some 3%Z.
+Proof. repeat split; reflexivity. Qed.
